@@ -4,6 +4,7 @@ import (
 	"fmt"
 	"go/ast"
 	"go/token"
+	"go/types"
 	"path/filepath"
 	"sort"
 	"strings"
@@ -309,10 +310,61 @@ func c14Helpers(rc *RuleCtx) {
 				bad = "a not-exist error is not turned into (false, nil)"
 			}
 		}
+		// the error of every consultation is what the helper decides on and hands back: it reaches an
+		// error result of the helper, and errors.Is tests that error and nothing else
+		isConsultErr := func(v ssa.Value) bool {
+			for _, rv := range resolve(v) {
+				c, idx := resultOfCall(rv)
+				if c == nil || !c.Common().IsInvoke() {
+					return false
+				}
+				fn := calleeFunc(c)
+				if fn == nil || idx != errResultIndex(fn.Type().(*types.Signature)) {
+					return false
+				}
+			}
+			return len(resolve(v)) > 0
+		}
+		eachCall(f, func(ci ssa.CallInstruction) {
+			fn := calleeFunc(ci)
+			if fn == nil {
+				return
+			}
+			if isPkgFunc(fn, "errors", "Is") {
+				if a := callArgs(ci); len(a) == 2 && !isConsultErr(a[0]) {
+					bad = "errors.Is tests a value that is not the error returned by the consulted file system (a shadowed or stale variable): a Stat failure other than not-exist is answered (false, nil)"
+				}
+				return
+			}
+			if !ci.Common().IsInvoke() || ci.Common().Value != ssa.Value(f.Params[0]) {
+				return
+			}
+			switch fn.Name() {
+			case "Stat", "OpenFile":
+			default:
+				return
+			}
+			ei := errResultIndex(fn.Type().(*types.Signature))
+			reaches := false
+			for _, r := range returnsOf(f) {
+				ri := errResultIndex(f.Signature)
+				if ri < 0 || ri >= len(r.Results) {
+					continue
+				}
+				for _, rv := range resolve(r.Results[ri]) {
+					if c, idx := resultOfCall(rv); c == ci && idx == ei {
+						reaches = true
+					}
+				}
+			}
+			if !reaches {
+				bad = "the error returned by " + fn.Name() + " never reaches the helper's error result: a failure of the file system is reported as a plain 'false'"
+			}
+		})
 		if bad != "" {
 			rc.bad(cons, f.Pos(), bad)
 		} else {
-			rc.good(cons, f.Pos(), "answers from Stat (and ReadDir) of its own path parameter")
+			rc.good(cons, f.Pos(), "answers from Stat (and ReadDir) of its own path parameter; consultation errors are tested and returned")
 		}
 	}
 }
